@@ -11,7 +11,14 @@ import (
 	"sync/atomic"
 	"testing/synctest"
 	"time"
+	"unsafe"
 )
+
+//go:linkname runtime_getProfLabel runtime/pprof.runtime_getProfLabel
+func runtime_getProfLabel() unsafe.Pointer
+
+//go:linkname runtime_setProfLabel runtime/pprof.runtime_setProfLabel
+func runtime_setProfLabel(labels unsafe.Pointer)
 
 type tstate int32
 
@@ -28,8 +35,11 @@ func (s tstate) String() string {
 	return [...]string{"runnable", "running", "blocked", "done", "waitquiet", "timer"}[s]
 }
 
+const taskMagic uint64 = 0x73696d676f74736b
+
 // Task is one simulated goroutine.
 type Task struct {
+	magic    uint64 // first field: lets curTask recognise its own pointers
 	sim      *Sim
 	ID       int
 	Name     string
@@ -71,6 +81,7 @@ type Sim struct {
 	last    *Task
 	wake    chan struct{}
 	ended   bool
+	endedFlag atomic.Bool
 	steps   int
 	start   time.Time
 
@@ -103,13 +114,35 @@ var cur atomic.Pointer[Sim]
 // clock, the test binary's own machinery) must be pass-through.
 func inBubble() bool { return time.Now().Year() < 2015 }
 
+// curTask returns the task the calling goroutine is (nil for goroutines that
+// are not simulated tasks: package init goroutines, helper goroutines of the
+// standard library and third-party code, the test binary's own machinery).
+// The identity is kept in the goroutine's profiler-label slot.
+func curTask() *Task {
+	p := runtime_getProfLabel()
+	if p == nil {
+		return nil
+	}
+	t := (*Task)(p)
+	if t.magic != taskMagic {
+		return nil
+	}
+	return t
+}
+
 func active() *Sim {
-	s := cur.Load()
-	if s == nil || !inBubble() {
+	t := curTask()
+	if t == nil {
+		return nil
+	}
+	s := t.sim
+	if s.isEnded() || !inBubble() {
 		return nil
 	}
 	return s
 }
+
+func (s *Sim) isEnded() bool { return s.endedFlag.Load() }
 
 // Active reports whether the caller runs inside a simulation.
 func Active() bool { return active() != nil }
@@ -129,6 +162,13 @@ func goid() int64 {
 	}
 	id, _ := strconv.ParseInt(f[1], 10, 64)
 	return id
+}
+
+func (s *Sim) curID() int {
+	if s.current == nil {
+		return -1
+	}
+	return s.current.ID
 }
 
 func (s *Sim) ev(kind uint64, a, b uint64) {
@@ -166,7 +206,7 @@ func (s *Sim) EngineError(format string, a ...any) {
 }
 
 func (s *Sim) newTask(name string) *Task {
-	t := &Task{sim: s, ID: len(s.tasks), Name: name, state: stRunnable,
+	t := &Task{magic: taskMagic, sim: s, ID: len(s.tasks), Name: name, state: stRunnable,
 		resume: make(chan struct{}, 1), doneCh: make(chan struct{})}
 	s.tasks = append(s.tasks, t)
 	return t
@@ -183,6 +223,7 @@ func (s *Sim) spawn(name string, fn func()) *Task {
 }
 
 func (s *Sim) taskMain(t *Task, fn func()) {
+	runtime_setProfLabel(unsafe.Pointer(t))
 	<-t.resume
 	if s.debugGoid {
 		t.goid = goid()
@@ -190,6 +231,13 @@ func (s *Sim) taskMain(t *Task, fn func()) {
 	defer func() {
 		r := recover()
 		s.mu.Lock()
+		if t.state == stBlocked && !s.ended {
+			// the task panicked out of a blocking operation and reaches its end
+			// without having passed a hook: wait for its turn before touching anything
+			s.mu.Unlock()
+			s.post(t)
+			s.mu.Lock()
+		}
 		if r != nil {
 			t.Panicked = true
 			t.PanicVal = r
@@ -224,9 +272,26 @@ func Pre(site string) *Task {
 }
 
 func (s *Sim) pre(site string) *Task {
+	t := curTask()
+	if t == nil || t.sim != s {
+		return nil
+	}
 	s.mu.Lock()
-	t := s.current
-	if t == nil || s.ended {
+	if s.ended {
+		s.mu.Unlock()
+		return nil
+	}
+	if t.state == stBlocked {
+		// woken from a blocking operation without passing Post (it panicked out of
+		// it, e.g. send on a channel closed meanwhile): take the missed parking now
+		s.mu.Unlock()
+		s.post(t)
+		s.mu.Lock()
+	}
+	if t.state != stRunning || s.current != t {
+		if s.engineErr == "" {
+			s.engineErr = fmt.Sprintf("hook %s reached by task T%d in state %v while T%v is current", site, t.ID, t.state, s.curID())
+		}
 		s.mu.Unlock()
 		return nil
 	}
@@ -309,13 +374,6 @@ func Go(site string, fn func()) {
 		go fn()
 		return
 	}
-	s.mu.Lock()
-	ok := s.current != nil && !s.ended
-	s.mu.Unlock()
-	if !ok {
-		go fn()
-		return
-	}
 	s.spawn(site, fn)
 	s.pre(site)
 }
@@ -327,15 +385,12 @@ func AfterFunc(d time.Duration, f func()) *time.Timer {
 		return time.AfterFunc(d, f)
 	}
 	s.mu.Lock()
-	if s.current == nil || s.ended {
-		s.mu.Unlock()
-		return time.AfterFunc(d, f)
-	}
 	t := s.newTask("AfterFunc")
 	t.state = stTimer
 	t.bg = true
 	s.mu.Unlock()
 	return time.AfterFunc(d, func() {
+		runtime_setProfLabel(unsafe.Pointer(t))
 		s.post(t) // becomes runnable, parks until scheduled
 		s.mu.Lock()
 		ended := s.ended
@@ -374,9 +429,9 @@ func Gosched() {
 		runtime.Gosched()
 		return
 	}
+	t := curTask()
 	s.mu.Lock()
-	t := s.current
-	if t == nil || s.ended {
+	if t == nil || s.ended || t.state != stRunning {
 		s.mu.Unlock()
 		runtime.Gosched()
 		return
@@ -543,6 +598,7 @@ func Execute(tt TestingT, cfg Config, tape *Tape, body func(r *Run)) *Result {
 			s.loop(main)
 			s.mu.Lock()
 			s.ended = true
+			s.endedFlag.Store(true)
 			s.mu.Unlock()
 			cur.Store(nil)
 			res.Virtual = time.Since(s.start)
